@@ -20,6 +20,21 @@ CHECKS = {
              "-true-names with overloads are not judged.",
         technique="bounded exhaustive program x configuration enumeration on the real tools, native-twin oracle",
     ),
+    "C02": dict(
+        level="model_checking",
+        text="Shape S: every overload set of size 1-2 (thorough 1-3) over 11 parameter categories, arity<=2, defaults, const "
+             "pairs, statics, keyword calls, (explicit) coercion constructors and operators, built into real python-native "
+             "modules (interrogate + interrogate_module + embedded runtime) and called with EVERY tuple of 18 Python values "
+             "of every length 0..max+1; a g++-compiled native twin (requires-guarded oracle entries) decides which body C++ "
+             "runs; traces, results, exceptions and the instance ledger are compared. Shape H: breadth-first search over "
+             "ownership histories (construct, copy, return by value/pointer/self, pass, store, drop, gc) to depth 4 (5) with "
+             "ledger invariants in every state. Names family for the documented renaming rules.",
+        design="4/C02",
+        note="Implicit numeric conversions, bool, None for pointers, bytes for strings and calls C++ finds ambiguous are "
+             "unjudged and counted (the property decides neither outcome). Two open known findings (OverflowError reported as "
+             "TypeError in overloaded sets / binary operator slots).",
+        technique="bounded exhaustive call-tuple enumeration + explicit-state search over ownership histories on real modules",
+    ),
     "C04": dict(
         level="model_checking",
         text="Exhaustive small-scope enumeration of class layouts (12 member kinds x 7 section labels; all singles, all "
